@@ -140,6 +140,125 @@ def g_c16_portmap(repo, thorough=False):
         d.close()
     return out
 
+
+# ----------------------------------------------------------------------------- C20: real loggers (bounded stand-in)
+import re as _re
+LOGFMT_RX = _re.compile(r'^ts=\d+\.\d+ proto=(arp|eth|ipv4|ipv6|icmpv4|icmpv6|tcp|udp) verb=(recv|send|drop)((?: +[a-z_0-9]+=[^ =\t]+)*) *$')
+CONSOLE_RX = _re.compile(r'^\d+\.\d+\t(arp|eth|ipv4|ipv6|icmpv4|icmpv6|tcp|udp)\t(recv|send|drop)\t([^\n]*)$')
+
+def c20_corpus():
+    """(name, frame, facts) -- facts: mac_src, mac_dst, ip_src, ip_dst, port_src, port_dst where the frame has them"""
+    E, I4, I6, U, T = R.eth, R.ip4, R.ip6, R.udp, R.tcp
+    me4, me6, peer4, peer6 = '10.0.0.1', '2001:db8::1', '10.0.0.2', '2001:db8::2'
+    other4 = '10.9.9.9'
+    def f4(l4, proto, dst=me4, src=peer4, dmac=R.MAC): return E(dmac, R.PEER, 0x0800, I4(src, dst, proto, l4))
+    def f6(l4, nh, dst=me6, src=peer6, dmac=R.MAC): return E(dmac, R.PEER, 0x86dd, I6(src, dst, nh, l4))
+    def icmp6(t, c, rest, src=peer6, dst=me6):
+        body = struct.pack('!BBH', t, c, 0) + rest
+        ph = socket.inet_pton(socket.AF_INET6, src) + socket.inet_pton(socket.AF_INET6, dst) + struct.pack('!IHBB', len(body), 0, 0, 58)
+        ck = R.csum(ph + body)
+        return body[:2] + struct.pack('!H', ck) + body[4:]
+    c = []
+    A = lambda name, fr, **facts: c.append((name, fr, facts))
+    A('arp-request', E('ff:ff:ff:ff:ff:ff', R.PEER, 0x0806, R.arp(1, R.PEER, peer4, '00:00:00:00:00:00', me4)))
+    A('arp-reply', E(R.MAC, R.PEER, 0x0806, R.arp(2, R.PEER, peer4, R.MAC, me4)))
+    A('arp-other-ip', E('ff:ff:ff:ff:ff:ff', R.PEER, 0x0806, R.arp(1, R.PEER, peer4, '00:00:00:00:00:00', other4)))
+    A('eth-wrong-mac', f4(R.icmp(8, 0, b'\0\1\0\1abcd'), 1, dmac='02:aa:aa:aa:aa:aa'))
+    A('eth-unknown-type', E(R.MAC, R.PEER, 0x88cc, b'\0' * 30))
+    A('eth-short', (R.mac(R.MAC) + R.mac(R.PEER))[:10])
+    A('ip4-short', E(R.MAC, R.PEER, 0x0800, b'\x45\0\0\x14'))
+    A('ip4-other-dst', f4(R.icmp(8, 0, b'\0\1\0\1abcd'), 1, dst=other4), ip_src=peer4, ip_dst=other4)
+    A('ip4-denied-src', f4(R.icmp(8, 0, b'\0\1\0\1abcd'), 1, src='10.6.6.6'), ip_src='10.6.6.6', ip_dst=me4)
+    A('ip4-unknown-proto', f4(b'\0' * 12, 47), ip_src=peer4, ip_dst=me4)
+    A('icmp4-echo', f4(R.icmp(8, 0, b'\0\1\0\1abcdefgh'), 1), ip_src=peer4, ip_dst=me4)
+    A('icmp4-reply', f4(R.icmp(0, 0, b'\0\1\0\1abcd'), 1), ip_src=peer4, ip_dst=me4)
+    A('icmp4-short', f4(b'\x08', 1), ip_src=peer4, ip_dst=me4)
+    A('tcp4-syn', f4(T(40000, 80, 7, 0, 0x02), 6), ip_src=peer4, ip_dst=me4, port_src=40000, port_dst=80)
+    A('tcp4-synack', f4(T(40000, 80, 7, 1, 0x12), 6), ip_src=peer4, ip_dst=me4, port_src=40000, port_dst=80)
+    A('tcp4-ack', f4(T(40000, 80, 7, 1, 0x10), 6), ip_src=peer4, ip_dst=me4, port_src=40000, port_dst=80)
+    A('tcp4-rst', f4(T(40000, 80, 7, 1, 0x04), 6), ip_src=peer4, ip_dst=me4, port_src=40000, port_dst=80)
+    A('tcp4-fin-ack', f4(T(40000, 80, 7, 1, 0x11), 6), ip_src=peer4, ip_dst=me4, port_src=40000, port_dst=80)
+    A('tcp4-data-bad-cookie', f4(T(40001, 80, 7, 12345, 0x18, b'GET / HTTP/1.1\r\n\r\n'), 6), ip_src=peer4, ip_dst=me4, port_src=40001, port_dst=80)
+    A('tcp4-data-good-cookie', ('cookie', peer4, me4, 40002, 80, b'GET / HTTP/1.1\r\n\r\n'), ip_src=peer4, ip_dst=me4, port_src=40002, port_dst=80)
+    A('tcp4-short', f4(b'\0' * 10, 6), ip_src=peer4, ip_dst=me4)
+    A('udp4-junk', f4(U(40000, 9999, b'hello'), 17), ip_src=peer4, ip_dst=me4, port_src=40000, port_dst=9999)
+    A('udp4-dns', f4(U(40000, 53, bytes.fromhex('123401000001000000000000016100') + b'\0\1\0\1'), 17), ip_src=peer4, ip_dst=me4, port_src=40000, port_dst=53)
+    A('udp4-stun', f4(U(40000, 3478, bytes.fromhex('000100002112a442') + b'0123456789ab'), 17), ip_src=peer4, ip_dst=me4, port_src=40000, port_dst=3478)
+    A('udp4-short', f4(b'\0' * 5, 17), ip_src=peer4, ip_dst=me4)
+    A('ip6-short', E(R.MAC, R.PEER, 0x86dd, b'\x60\0\0\0'))
+    A('icmp6-echo', f6(icmp6(128, 0, b'\0\1\0\1abcd'), 58), ip_src=peer6, ip_dst=me6)
+    A('icmp6-echo-code1', f6(icmp6(128, 1, b'\0\1\0\1abcd'), 58), ip_src=peer6, ip_dst=me6)
+    A('icmp6-ns', f6(icmp6(135, 0, b'\0\0\0\0' + socket.inet_pton(socket.AF_INET6, me6) + b'\x01\x01' + R.mac(R.PEER)), 58), ip_src=peer6, ip_dst=me6)
+    A('icmp6-ns-short', f6(icmp6(135, 0, b'\0\0\0\0abcd'), 58), ip_src=peer6, ip_dst=me6)
+    A('icmp6-na', f6(icmp6(136, 0, b'\0\0\0\0' + socket.inet_pton(socket.AF_INET6, me6)), 58), ip_src=peer6, ip_dst=me6)
+    A('tcp6-syn', f6(T(40000, 22, 7, 0, 0x02), 6), ip_src=peer6, ip_dst=me6, port_src=40000, port_dst=22)
+    A('udp6-junk', f6(U(40000, 9999, b'hello'), 17), ip_src=peer6, ip_dst=me6, port_src=40000, port_dst=9999)
+    A('ip6-other-dst', f6(U(40000, 9999, b'hello'), 17, dst='2001:db8::77'), ip_src=peer6, ip_dst='2001:db8::77')
+    A('ip6-unknown-nh', f6(b'\0' * 16, 43), ip_src=peer6, ip_dst=me6)
+    return c
+
+def g_c20_lines(repo):
+    """BOUNDED stand-in for the parts of C20 that are not under contract (the real ConsoleLogger / LogfmtLogger and
+    the MetaLogger forwarding): a corpus of frames over every layer and drop reason is run through the hook
+    binary with each real logger attached; per frame the printed lines must (a) each be one complete line of the
+    format, (b) be well nested recv ... (send|drop) per layer from Ethernet inwards, exactly one of each per
+    layer reached, (c) end in `eth send` exactly when a reply frame is emitted, (d) print the frame's own
+    addresses and ports (logfmt keys).  Returns [(ok, info)]."""
+    out = []
+    for fmt, rx in (('logfmt', LOGFMT_RX), ('console', CONSOLE_RX)):
+        d = R.Driver(repo)
+        try:
+            d.cfg(mac=R.MAC, self='10.0.0.1,2001:db8::1', deny='10.6.6.6', log=fmt)
+            d.take_log()
+            for name, fr, facts in c20_corpus():
+                if isinstance(fr, tuple):
+                    _, src, dst, sp, dp, payload = fr
+                    ck = d.cookie(src, dst, sp, dp)
+                    fr = R.eth(R.MAC, R.PEER, 0x0800, R.ip4(src, dst, 6, R.tcp(sp, dp, 7, (ck + 1) & 0xffffffff, 0x18, payload)))
+                    d.take_log()
+                r = d.frame(fr)
+                lines = d.take_log()
+                bad = []
+                evs = []
+                for l in lines:
+                    mo = rx.match(l)
+                    if not mo:
+                        bad.append('not a complete %s line: %r' % (fmt, l)); continue
+                    evs.append((mo.group(1), mo.group(2), mo.group(3)))
+                stack = []
+                seen = set()
+                for proto, verb, rest in evs:
+                    if verb == 'recv':
+                        if proto in seen: bad.append('second recv for layer %s' % proto)
+                        seen.add(proto); stack.append(proto)
+                    else:
+                        if not stack or stack[-1] != proto: bad.append('%s %s without matching recv (open: %s)' % (proto, verb, stack))
+                        else: stack.pop()
+                if stack: bad.append('layers without terminal event: %s' % stack)
+                if len(fr) >= 14:
+                    if not evs or evs[0][:2] != ('eth', 'recv'): bad.append('first event is not eth recv')
+                    term = evs[-1][:2] if evs else None
+                    if r[0] == 'reply' and term != ('eth', 'send'): bad.append('reply emitted but last event is %s' % (term,))
+                    if r[0] != 'reply' and term == ('eth', 'send'): bad.append('eth send logged but no reply emitted')
+                if r[0] == 'panic': bad.append('panic: %s' % r[1])
+                if fmt == 'logfmt' and facts:
+                    for proto, verb, rest in evs:
+                        if verb != 'recv' or proto in ('eth', 'arp'): continue
+                        kv = dict(x.split('=', 1) for x in rest.split())
+                        want = {'ip_src': facts.get('ip_src'), 'ip_dst': facts.get('ip_dst')}
+                        if proto in ('tcp', 'udp'):
+                            want.update(port_src=str(facts.get('port_src')), port_dst=str(facts.get('port_dst')))
+                        for k, v in want.items():
+                            if v is not None and v != 'None' and kv.get(k) != v:
+                                bad.append('%s recv prints %s=%s, frame has %s' % (proto, k, kv.get(k), v))
+                name_ = 'ground/C20/lines/%s/%s' % (fmt, name)
+                info = {'obligation': name_, 'frame_hex': fr.hex(), 'reply': r[0], 'lines': lines}
+                if bad: info['violated'] = bad
+                out.append((not bad, info))
+        finally:
+            d.close()
+    return out
+
 # ----------------------------------------------------------------------------- per-property driver
 def run(pid, tier, repo, build, seed):
     res = {'obligations': 0, 'discharged': 0, 'violations': [], 'undecided': [], 'details': []}
@@ -206,6 +325,13 @@ def run(pid, tier, repo, build, seed):
             same, info = g_c11_prefix(repo)
             add(same, info, 'ground/C11/identification-prefix-not-fed',
                 'the first request on a flow is answered identically however the stream is cut (witness: GET / HTTP/1.1 cut after 2 bytes)')
+        if pid == 'C20':
+            rs = g_c20_lines(repo)
+            res['bounded'] = {'what': 'real ConsoleLogger/LogfmtLogger output on the hook binary: line syntax, recv/terminal nesting, eth send iff reply, printed addresses (stand-in for the logger code that is only a shim in the Verus units)',
+                              'bound': '%d frames (every layer, every drop reason of the corpus in tools/ground.py c20_corpus) x 2 formats' % (len(rs) // 2),
+                              'counted_as_proved': False}
+            for ok, info in rs:
+                add(ok, info, info['obligation'], 'BOUNDED: log lines of this frame are complete, nested and match the frame: %s' % info.get('violated'), bounded=True)
         if pid == 'C16':
             rs = g_c16_portmap(repo, thorough=(tier == 'thorough'))
             groups = {}
@@ -245,6 +371,15 @@ def replay(pid, path, repo, build):
         print(json.dumps(info, indent=1))
         print('REPRODUCED' if rep else 'not reproduced')
         return 1 if rep else 0
+    if str(rec.get('obligation', '')).startswith('ground/C20/lines/'):
+        for ok, info in g_c20_lines(repo):
+            if info['obligation'] == rec['obligation']:
+                print('frame %s' % info['frame_hex']); print('reply: %s' % info['reply'])
+                for l in info['lines']: print('  | ' + l)
+                print('violated: %s' % info.get('violated'))
+                print('REPRODUCED' if not ok else 'not reproduced')
+                return 1 if not ok else 0
+        return 2
     if isinstance(w, dict) and w.get('frame_hex') and w.get('expected_payload_hex') is not None:
         # a frame whose application payload reply must equal the expected bytes (C16 portmapper stand-in)
         d = R.Driver(repo)
